@@ -45,6 +45,9 @@ def gen_libio():
     out += f"Definition save_mode : save_discipline := {save}.\nDefinition load_mode : load_discipline := {ld}.\n"
     out += f"Definition load_passes_num_bits : bool := {'true' if passes_bits else 'false'}.\n"
     out += f"Definition load_sets_shape_and_classes : bool := {'true' if sets_shape else 'false'}.\n"
-    out += ("(* compile() starts by refusing an instance without a model (a handle returned by load) *)\n"
+    out += ("(* compile() on an instance without a model (a handle returned by load): refused as its first statement, or an empty\n"
+            "   logic_net is generated, saved and installed *)\n"
+            "Inductive recompile_discipline := Refuses | RebuildsEmpty.\n"
+            f"Definition recompile_mode : recompile_discipline := {'Refuses' if requires_model else 'RebuildsEmpty'}.\n"
             f"Definition compile_requires_model : bool := {'true' if requires_model else 'false'}.\n")
     return out
